@@ -28,7 +28,7 @@ fn run_line(prop: &str, args: &[&str]) -> String {
         "C19" => tr19::run19(args),
         "C06" => conn::run(args),
         "C01" | "C12" | "C02" | "C11" if args[0] == "sys" => sysloop::op_sys(args[1].parse().unwrap(), args[2].parse().unwrap(), args[3].parse().unwrap(), args[4]),
-        "C08" if args[0] == "resp" => tr19::run19(args),
+        "C08" if args[0] == "resp" || args[0] == "accept" => tr19::run19(args),
         "C08" | "C09" | "C10" | "C11" | "C20" | "C01" => hand::run(args),
         "C07" if args[0] == "st" || args[0] == "snd" => conn::run(args),
         "C07" => wire::run(args),
@@ -176,6 +176,10 @@ fn main() {
         Some("child-e2e19") => {
             drop(out);
             tr19::child_e2e19(argv[2].parse().expect("k"), &argv[3], argv[4].parse().expect("npeers"));
+        }
+        Some("child-acc08") => {
+            drop(out);
+            tr19::child_acc08();
         }
         // harness gen <PROP> <seed> <count>
         Some("gen") => {
